@@ -20,6 +20,21 @@ CLAIMED = {
   technique="TLA+ enumeration + TLC exhaustive evaluation, replay of every case and of AHT state-machine behaviours on the real code"),
 }
 
+CLAIMED["C02"] = dict(
+  category="model_checking",
+  text="spec/Store.tla models the commit pipeline of ImmuStore (one action per critical section; guards = weakest conditions for the invariants). "
+       "TLC checks spec/MCStore.tla exhaustively (all interleavings, both durability modes, with/without external allowance): dense ids, chained hashes, "
+       "append-only committed history, acknowledged-implies-durable. The real store is then driven with the verif hooks on (2-5 concurrent committers, sync and "
+       "async commits, failing preconditions, cancelled contexts, discards, allowance, index flush/compaction, clean close/reopen cycles; configuration class "
+       "rotating over synced/unsynced, embedded values, prealloc, header version, IO concurrency, file sizes forcing chunk rotation) and after every "
+       "acknowledged commit the whole committed history is re-read through ReadTx+ReadValue, ExportTx and ReadTxHeader; TLC validates every recorded execution "
+       "against Store.tla (spec/TraceStore.tla): each hook event must be explained by an action and every re-read must equal what was first committed under that id "
+       "and what its committer wrote, with the chain (PrevAlh, BlRoot against a reference Merkle root) intact.",
+  design_ref="DESIGN.md §4 C02",
+  note="Interleavings of the real store are those the Go scheduler produces in the driver runs (no forced schedules yet); MC bounds MaxTx<=4. "
+       "Trusted: hook placement (events emitted under the protecting lock), the tracer's reference Merkle root, TLC.",
+  technique="TLC exhaustive model checking of the pipeline + TLC trace validation of hooked real executions")
+
 REASONS = {}
 
 
